@@ -216,18 +216,12 @@ func (o *trafficOracle) decode(obj client.Object) route {
 		}
 		if x.GetKind() == "TrafficTag" {
 			var r route
-			rules, _, _ := unstructured.NestedSlice(x.Object, "spec", "rules")
-			for _, ru := range rules {
-				if m, ok := ru.(map[string]interface{}); ok && m["to"] == o.canarySvc {
-					if p, ok := m["percent"].(int64); ok {
-						r.Share = int(p)
-					} else if f, ok := m["percent"].(float64); ok {
-						r.Share = int(f)
-					}
-				}
-			}
 			if c, found, _ := unstructured.NestedMap(x.Object, "spec", "canary"); found && c["to"] == o.canarySvc {
-				r.Match = true
+				if c["match"] == "header" {
+					r.Match = true
+				} else if w, err := strconv.Atoi(x.GetLabels()["canary-weight"]); err == nil {
+					r.Share = w // this resource publishes the weight in a label
+				}
 			}
 			return r
 		}
@@ -583,7 +577,9 @@ func (o *trafficOracle) OnEnd(s *Sim) {
 	}
 	fam := o.sc.Family + "/" + exit
 	if s.User.ExitNoBR {
-		fam += "/workload-unclaimed-at-exit"
+		fam += "/no-batchrelease-at-exit"
+	} else if s.User.ExitUnclaimed {
+		fam += "/batchrelease-unclaimed-at-exit"
 	}
 	bad := func(what, format string, a ...interface{}) {
 		s.Violate("C05", "X1-residue", "X1/"+what+"/"+fam, s.Store.seq, "after exit (%s): "+format, append([]interface{}{exit}, a...)...)
